@@ -30,7 +30,9 @@ static void cr_gen_system(rng_t *r, int n, int kind, int cplx, int dbl, gmat_t *
         /* column q := 2^s * column p + 2^-k * e_i: distance 2^-k from a singular matrix */
         int p = rng_int(r, 0, n - 1), q = (p + 1 + rng_int(r, 0, n - 2)) % n, s = rng_int(r, -2, 2);
         int kk = dbl ? rng_int(r, 8, 75) : rng_int(r, 4, 36), i0 = rng_int(r, 0, n - 1);
-        for (int i = 0; i < n; i++) { long a = i + (long)p * n, b = i + (long)q * n; re[b] = ldexp(re[a], s); im[b] = ldexp(im[a], s); keep[b] = keep[a]; }
+        /* the old column q stays in, scaled by 2^-k, so that a structural transversal survives */
+        for (int i = 0; i < n; i++) { long a = i + (long)p * n, b = i + (long)q * n;
+            re[b] = (keep[a] ? ldexp(re[a], s) : 0.0) + (keep[b] ? ldexp(re[b], -kk) : 0.0); im[b] = (keep[a] ? ldexp(im[a], s) : 0.0) + (keep[b] ? ldexp(im[b], -kk) : 0.0); keep[b] = keep[a] || keep[b]; }
         re[i0 + (long)q * n] += ldexp(1.0, -kk); keep[i0 + (long)q * n] = 1;
     } else if (kind == CR_ILL) { re[0] = ldexp(1.0, rng_int(r, -40, 40)); im[0] = 0; keep[0] = 1; }
     else if (kind == CR_SINGULAR) {
